@@ -40,6 +40,8 @@ fn gen_value(rng: &mut Rng, safe: bool) -> J {
             }
         }
         9 => json!(["ts", [if rng.chance(1, 4) { *rng.pick(&[1i64, 33, 987, 999, 1000, 9999, 1583, 100]) } else { rng.range(1970, 2100) }, rng.range(1, 12), rng.range(1, 28), rng.range(0, 23), rng.range(0, 59), rng.range(0, 59), rng.range(0, 999) * 1000]]),
+        // differences of timestamps: fractions of a second, either sign (also less than a second)
+        10 if rng.chance(1, 3) => { let ms = *rng.pick(&[200i64, 5, 999, 1, 1005, 1500, 59_999, 61_000, 3_600_200, 86_400_001]); json!(["ivus", (if rng.chance(1, 2) { -ms } else { ms }) * 1000 + if rng.chance(1, 4) { rng.range(0, 999) } else { 0 }]) }
         _ => json!(["iv", format!("{}{}:{:02}:{:02}", if rng.chance(1, 6) { "-" } else { "" }, *rng.pick(&[0i64, 1, 9, 10, 23, 24, 99, 100, 2400, 100000]) + rng.range(0, 3), rng.range(0, 59), rng.range(0, 59))]),
     }
 }
@@ -102,7 +104,17 @@ fn canonical_text(v: &Value) -> Option<String> {
         _ => None,
     }
 }
-fn ts_iv_text_ok(v: &Value, shown: &str) -> bool { match canonical_text(v) { Some(c) => shown == c, None => shown == v.to_string() } }
+fn ts_iv_text_ok(v: &Value, shown: &str) -> bool {
+    match canonical_text(v) {
+        Some(c) => shown == c,
+        None => {
+            // a negative interval: whatever its notation, it is not the text of its positive counterpart (which is pinned down
+            // above) unless the two coincide at the shown precision - otherwise the record no longer tells the two rows apart
+            if let RV::Iv(us) = RV::from_engine(v) { if us < 0 && us / 1000 != 0 && us != i64::MIN && shown == crate::val::display_text(&RV::Iv(-us)) { return false; } }
+            shown == v.to_string()
+        }
+    }
+}
 
 fn needs_escaping(v: &Value) -> bool {
     match v {
